@@ -3,7 +3,10 @@ package main
 import (
 	"bytes"
 	"fmt"
+	"math/rand"
+	"runtime"
 	"sync"
+	"sync/atomic"
 
 	"github.com/cbehopkins/gkvlite"
 
@@ -236,6 +239,74 @@ func (w *World) EnumEv(h *StoreH, name string, random bool) bool {
 	}
 	ev["keys"], ev["err"] = keys, err != nil
 	w.end(h, ev, nil)
+	return true
+}
+
+// KeyOnlyBurst (C19 under concurrency): several goroutines perform only
+// key-only operations on a store whose caches are cold, yielding at every file
+// read.  Since every call in flight is key-only, no value byte may be read.
+func (w *World) KeyOnlyBurst(h *StoreH, readers, opsEach int) bool {
+	if h.File == nil {
+		return true
+	}
+	names := h.St.GetCollectionNames()
+	if len(names) == 0 {
+		return true
+	}
+	h.File.Drain()
+	h.File.Gate = func(kind byte, off int64, n int) { runtime.Gosched() }
+	defer func() { h.File.Gate = nil }()
+	var wg sync.WaitGroup
+	failed := int32(0)
+	for g := 0; g < readers; g++ {
+		g := g
+		wg.Add(1)
+		go func() {
+			defer wg.Done()
+			defer func() {
+				if r := recover(); r != nil {
+					atomic.StoreInt32(&failed, 1)
+				}
+			}()
+			rr := rand.New(rand.NewSource(int64(w.nEvents*31 + g)))
+			for i := 0; i < opsEach; i++ {
+				n := names[rr.Intn(len(names))]
+				c := h.St.GetCollection(n)
+				if c == nil {
+					continue
+				}
+				key := w.U.Keys[rr.Intn(len(w.U.Keys))]
+				switch rr.Intn(5) {
+				case 0:
+					c.GetItem(key, false)
+				case 1:
+					c.Exist(key)
+				case 2:
+					c.MinItem(false)
+				case 3:
+					c.MaxItem(false)
+				case 4:
+					c.VisitItemsAscend(key, false, func(i *gkvlite.Item) bool { return rr.Intn(4) != 0 })
+				}
+			}
+		}()
+	}
+	done := make(chan bool)
+	go func() { wg.Wait(); close(done) }()
+	select {
+	case <-done:
+	case <-timeAfter(w.opTimeout):
+		w.emit(Ev{"e": "Panic", "cat": w.prop + ":hang", "msg": "concurrent key-only readers did not finish"})
+		w.dead = true
+		return false
+	}
+	if atomic.LoadInt32(&failed) != 0 {
+		w.emit(Ev{"e": "Panic", "cat": w.prop + ":panic", "msg": "panic in concurrent key-only readers"})
+		w.dead = true
+		return false
+	}
+	h.File.Gate = nil
+	w.emit(Ev{"e": "Burst", "s": h.ID, "readers": readers, "io": w.ioOf(h.File, false)})
 	return true
 }
 
